@@ -31,6 +31,10 @@ def variants(run):
 
 
 
+WARM_UP = ("<math><mn>1234567890.5</mn><mo>+</mo><mn>3,4</mn><mo>−</mo><mi>x</mi><mo>=</mo><mi>y</mi><mo>×</mo><mo>(</mo><mi>a</mi><mo>/</mo><mi>B</mi><mo>)</mo>"
+           "<mo>&lt;</mo><msup><mi>z</mi><mn>2</mn></msup><mo>,</mo><mtext>if q</mtext><mo>|</mo><mi>α</mi><mo>|</mo><mo>!</mo><mo>:</mo><mo>;</mo><mo>%</mo><mo>[</mo><mo>]</mo></math>")
+
+
 def run(tier):
     t0 = time.time()
     wd = C.workdir("c06")
@@ -61,8 +65,15 @@ def run(tier):
         lang = LANG.get(code, "en")
         for b in range(0, len(tis), 200):
             chunk = tis[b:b + 200]
-            ops = [{"op": "set_rules_dir", "dir": "$RULES", "setup": True}, {"op": "set_pref", "name": "Language", "value": lang, "setup": True},
-                   {"op": "set_pref", "name": "BrailleCode", "value": code, "setup": True}, {"op": "set_pref", "name": "BrailleNavHighlight", "value": "Off", "setup": True}]
+            ops = [{"op": "set_rules_dir", "dir": "$RULES", "setup": True}, {"op": "set_pref", "name": "Language", "value": lang, "setup": True}]
+            # every other session brailles digits, letters, marks and operators under ANOTHER code first (rotating through the
+            # codes): what the session remembers about a character under that code must not show under this one
+            n_sessions_so_far = len(scripts)
+            others = [c2 for c2 in S.braille_codes() if c2 != code]
+            if n_sessions_so_far % 2 == 1 and others:
+                ops += [{"op": "set_pref", "name": "BrailleCode", "value": others[(n_sessions_so_far // 2) % len(others)], "setup": True},
+                        {"op": "set_mathml", "mathml": WARM_UP, "setup": True}, {"op": "braille", "id": "", "setup": True}]
+            ops += [{"op": "set_pref", "name": "BrailleCode", "value": code, "setup": True}, {"op": "set_pref", "name": "BrailleNavHighlight", "value": "Off", "setup": True}]
             for k, v in json.loads(pj).items():
                 ops.append({"op": "set_pref", "name": k, "value": v, "setup": True})
             meta = [None] * len(ops)
